@@ -5,4 +5,8 @@ pub mod rng;
 pub mod exec;
 pub mod memconn;
 pub mod report;
+pub mod trace;
+pub mod httpref;
+pub mod web;
+pub mod appgen;
 pub mod engines;
